@@ -167,10 +167,13 @@ def c09(tier, seed, work):
         fams = [dict(name="c09-sess", insess=True, cmds="CmdsAB", maxcalls=2, maxatt=2, kinds="KindsRetry", auth=a, integ=i),
                 # X: a request the library refuses to serialise (no transmission, no sequence number used up)
                 dict(name="c09-refused", insess=True, cmds="CmdsAX", maxcalls=3, maxatt=2, kinds="KindsRetry", auth=a, integ=i, codes="CodesOkBusy"),
-                dict(name="c09-nosess", insess=False, cmds="CmdsAB", maxcalls=2, maxatt=2, kinds="KindsRetryNS", auth=1, integ=1)]
+                dict(name="c09-nosess", insess=False, cmds="CmdsAB", maxcalls=2, maxatt=2, kinds="KindsRetryNS", auth=1, integ=1),
+                # authentic replies that answer another request (stale, duplicated, late): every retransmission still takes the next number
+                dict(name="c09-desync", insess=True, cmds="CmdsAB", maxcalls=2, maxatt=2, kinds="KindsDesync", auth=a2, integ=i2, codes="CodesOkBusy")]
         mc = [("MCConsole", "MC_Console_sess_quick.cfg"), ("MCConsole", "MC_Console_nosess_quick.cfg")]
     else:
         fams = [dict(name="c09-sess", insess=True, cmds="CmdsAB", maxcalls=2, maxatt=3, kinds="KindsRetry", auth=a, integ=i),
+                dict(name="c09-desync", insess=True, cmds="CmdsABR", maxcalls=2, maxatt=3, kinds="KindsDesync", auth=a2, integ=i2, codes="CodesOkBusy"),
                 dict(name="c09-sess2", insess=True, cmds="CmdsAR", maxcalls=3, maxatt=2, kinds="KindsRetry", auth=a2, integ=i2),
                 dict(name="c09-refused", insess=True, cmds="CmdsABX", maxcalls=3, maxatt=2, kinds="KindsRetry", auth=a, integ=i),
                 dict(name="c09-nosess", insess=False, cmds="CmdsAB", maxcalls=2, maxatt=3, kinds="KindsRetryNS", auth=1, integ=1)]
@@ -625,7 +628,8 @@ def c06(tier, seed, work):
     res = c06_vec(tier, seed, work)
     a, i = suite_for(seed, 2)
     d = 2 if tier == "quick" else 3
-    hs = [F.handshake_family(work, "c06-longuser", "longuser", tier, seed)]
+    # Open Session Request / RAKP messages of later establishments on a connection that has carried in-session traffic
+    hs = [F.handshake_family(work, "c06-longuser", "longuser", tier, seed), F.handshake_family(work, "c06-lifecycle", "lifecycle", tier, seed)]
     require_accepted(hs)
     ex = []
     for f in hs:
